@@ -9,6 +9,7 @@ usage: seed_eval.py <id> <property> <patch> <demo> [--needs "..."] [--checks C01
 import argparse
 import json
 import os
+os.environ["VERIF_EVIDENCE_DIR"] = "/tmp/verif_seed_evidence"
 import re
 import shutil
 import subprocess
